@@ -8,7 +8,7 @@ import vlib
 from checks import _ll
 
 PROPERTY = "C09"
-LEAN_MODULES = ["TapkeeVerif.Props.C09"]
+LEAN_MODULES = ["TapkeeVerif.Props.C09", "TapkeeVerif.Props.C09Compose"]
 LEAN_EXES = ["model_c09"]
 REQUIRED_THEOREMS = [     # every theorem of the Props module (all MANIFEST-named ones included): deleting one fails the audit
     "TapkeeVerif.C09.heat_argument",
@@ -44,6 +44,10 @@ REQUIRED_THEOREMS = [     # every theorem of the Props module (all MANIFEST-name
     "TapkeeVerif.C09.bottom_certified",
     "TapkeeVerif.C09.dm_solution",
     "TapkeeVerif.C09.dm_solution_indices",
+    # Props/C09Compose.lean: the stage models composed (C02 search, C03 k doubling, compute_laplacian / compute_diffusion_matrix,
+    # solver contract, returned coordinates)
+    "TapkeeVerif.LeCompose.laplacian_eigenmaps_end_to_end",
+    "TapkeeVerif.LeCompose.diffusion_map_end_to_end",
 ]
 EXE = "model_c09"
 
